@@ -39,7 +39,9 @@ RULE = (
     "or scaled by 1e-9..17x, each header line dropped or duplicated, an empty header line, a non-numeric / missing / extra token at "
     "every header position), body corruptions (row/column/token dropped or added, non-numeric token, extreme moved outside the header "
     "range, maximum blanked, transposed body), truncation after every line, wrapped-row layouts, and an injected I/O error at every "
-    "read position (file object and path). Non-trivial = non-square shape, or >= 1 blank cell, or >= 1 fault; distinct = hash of "
+    "read position (file object and path); call histories (stream histories): three files with different ids loaded through path / open file / StringIO in four "
+    "orders, interleaved with refused header faults and I/O faults, the same file with both dtypes, repeated loads compared with DataArray.identical(); "
+    "every result judged whole (attrs exactly {gridID} or {gridID, file}). Non-trivial = non-square shape, or >= 1 blank cell, or >= 1 fault; distinct = hash of "
     "(text, dtype, route, fault kind)."
 )
 ASSUMPTIONS = [
@@ -58,6 +60,12 @@ FLOORS = {
                  "eval:handles_closed": 64000, "eval:passed_handle_left_open": 72000, "eval:fd_table": 136000, "eval:io_fault_outcome": 7400,
                  "eval:sources_agree": 66000, "opens_recorded": 64000, "header_fault_files": 40000, "distinct_nontrivial": 130000},
 }
+for _tier, _n in (("quick", 100), ("thorough", 2000)):
+    FLOORS[_tier].update({"eval:history_identical": int(1.2 * _n), "history:step:refused_file": int(0.5 * _n), "history:step:io_fault": int(0.4 * _n)})
+    FLOORS[_tier].update({"history:order_%d" % k: int(0.1 * _n) for k in range(4)})
+    FLOORS[_tier].update({"history:step:" + k: int(0.04 * _n) for k in (
+        "stringio_b_after_path_a", "handle_b_after_path_a", "path_b_after_refusal", "path_a_after_objects", "handle_a_after_two_paths",
+        "stringio_a_after_two_paths", "path_a_other_dtype", "path_a_first_dtype_again", "stringio_a_after_refusal", "handle_a_after_io_fault")})
 JOBS = {"quick": 1, "thorough": 8}
 CASE_TIMEOUT_S = 300
 
@@ -66,8 +74,8 @@ _STATE = {}
 
 def plan(tier):
     if tier == "quick":
-        return collections.OrderedDict(wellformed=300, wrapped=100, header_faults=70, body_faults=80, truncation=40, io_faults=40)
-    return collections.OrderedDict(wellformed=6000, wrapped=2000, header_faults=1400, body_faults=1600, truncation=800, io_faults=800)
+        return collections.OrderedDict(wellformed=300, wrapped=100, header_faults=70, body_faults=80, truncation=40, io_faults=40, histories=100)
+    return collections.OrderedDict(wellformed=6000, wrapped=2000, header_faults=1400, body_faults=1600, truncation=800, io_faults=800, histories=2000)
 
 
 # ----------------------------------------------------------------------
@@ -417,6 +425,8 @@ def run_case(run, tap, stream, index, rng):  # noqa: U100
         spec = sf.random_spec(rng, _effective(dtype), small=True, blanks=bool(index % 2))
         for n, (kind, text) in enumerate(sf.truncations(spec)):
             _routes(run, mon, text, dtype, "truncation:" + kind, "%s-%d" % (tag, n), ("path", "stringio"))
+    elif stream == "histories":
+        _histories_case(run, mon, index, rng)
     elif stream == "io_faults":
         dtype = _dtype_arg(rng)
         spec = sf.random_spec(rng, _effective(dtype), small=True, blanks=bool(index % 2))
@@ -448,6 +458,122 @@ def run_case(run, tap, stream, index, rng):  # noqa: U100
         run.count("io_fault:read_positions_enumerated", n_reads + n_reads_path)
         run.sample("io_fault", {"text": text[:600], "reads_object": n_reads, "reads_path": n_reads_path,
                                 "monitor": "k-th readline/next raises for every k: exception (or the file's grid) required; handle closed / left open"})
+
+
+def _histories_case(run, mon, index, rng):
+    """
+    Call sequences in one process: loads of different files through different routes, interleaved with refused files and I/O
+    faults. Every call is judged completely by the monitor (whole attrs dict, values, coordinates of ITS text); here two loads of
+    the same content before and after other loads must be DataArray.identical().
+    """
+    tag = "hist-%d" % index
+    dtype = _dtype_arg(rng)
+    eff = _effective(dtype)
+    specs = []
+    ids = list(rng.permutation(["DSAA", "DSBB", "grid A 01", "survey-7", "G", "DSAA v7"]))
+    for k in range(3):
+        sp = sf.random_spec(rng, eff, small=True, blanks=bool((index + k) % 2))
+        sp.grid_id = str(ids[k])
+        specs.append(sp)
+    text = [sp.render() for sp in specs]
+    path = [_write(mon, "%s-%s.grd" % (tag, "abc"[k]), text[k]) for k in range(3)]
+    faults = sf.header_faults(rng, specs[2])
+    pick = [faults[int(k)] for k in rng.permutation(len(faults))[:3]]
+    order = index % 4
+    run.count("history:order_%d" % order)
+    earlier = {}
+
+    def load(label, which, route, dtype_arg=dtype, kind=None, remember=True):
+        kind = kind or "history:%s" % label
+        run.count("history:step:%s" % label)
+        if route == "path":
+            res, exc = _call(mon, path[which], dtype_arg, kind, "path")
+        elif route == "handle":
+            with builtins.open(path[which], "r") as handle:
+                res, exc = _call(mon, handle, dtype_arg, kind, "handle")
+        else:
+            sio = io.StringIO(text[which])
+            res, exc = _call(mon, sio, dtype_arg, kind, "stringio")
+        key = (which, route, str(_effective(dtype_arg)))
+        if remember and res is not None:
+            if key in earlier:
+                run.evaluated("history_identical")
+                if not earlier[key].identical(res):
+                    run.violation("history_identical", "the same %s loaded again (%s, step %s) after other loads is not identical() to the first load: attrs %r vs %r"
+                                  % ("path" if route == "path" else "content through " + route, "abc"[which], label, dict(earlier[key].attrs), dict(res.attrs)),
+                                  {"step": label, "route": route, "text": text[which], "first_attrs": dict(earlier[key].attrs), "later_attrs": dict(res.attrs),
+                                   "first_values": np.asarray(earlier[key].values), "later_values": np.asarray(res.values)}, key="history:" + route)
+            else:
+                earlier[key] = res
+        return res
+
+    def refused(n):
+        kind, bad = pick[n % len(pick)]
+        run.count("history:step:refused_file")
+        if n % 2:
+            bad_path = _write(mon, "%s-bad%d.grd" % (tag, n), bad)
+            _call(mon, bad_path, dtype, "history:refused:" + kind, "path")
+            os.remove(bad_path)
+        else:
+            _call(mon, io.StringIO(bad), dtype, "history:refused:" + kind, "stringio")
+
+    def io_fault(which, through_path):
+        run.count("history:step:io_fault")
+        k = int(rng.integers(1, 8))
+        if through_path:
+            _call(mon, path[which], dtype, "history:io_error_path", "path", proxy={"fail_at": k}, fail_at=k)
+        else:
+            _call(mon, sf.FaultyText(text[which], fail_at=k), dtype, "history:io_error_object", "faultytext", fail_at=k)
+
+    if order == 0:  # path, then file objects of another file, and back
+        load("path_a_first", 0, "path")
+        load("stringio_b_after_path_a", 1, "stringio")
+        load("handle_b_after_path_a", 1, "handle")
+        load("stringio_a", 0, "stringio")
+        refused(0)
+        load("path_b_after_refusal", 1, "path")
+        io_fault(0, True)
+        load("stringio_b_again", 1, "stringio")
+        load("path_a_again", 0, "path")
+        load("handle_b_again", 1, "handle")
+    elif order == 1:  # file objects first, then paths
+        load("stringio_b_first", 1, "stringio")
+        load("handle_a", 0, "handle")
+        load("path_a_after_objects", 0, "path")
+        refused(1)
+        load("stringio_a_after_refused_path", 0, "stringio")
+        load("path_b", 1, "path")
+        io_fault(1, False)
+        load("handle_a_again", 0, "handle")
+        load("stringio_b_again", 1, "stringio")
+        load("path_a_again", 0, "path")
+    elif order == 2:  # path A -> path B -> file object of A; dtype changes on the same file
+        load("path_a", 0, "path")
+        load("path_b_after_path_a", 1, "path")
+        load("handle_a_after_two_paths", 0, "handle")
+        load("stringio_a_after_two_paths", 0, "stringio")
+        other = "float32" if eff == np.dtype("float64") else "float64"
+        load("path_a_other_dtype", 0, "path", dtype_arg=other)
+        load("path_a_first_dtype_again", 0, "path")
+        load("stringio_a_other_dtype", 0, "stringio", dtype_arg=other)
+        load("stringio_a_again", 0, "stringio")
+        load("path_a_other_dtype_again", 0, "path", dtype_arg=other)
+    else:  # refusals and faults first: nothing of a refused header may show up in the next accepted load
+        refused(0)
+        load("stringio_a_after_refusal", 0, "stringio")
+        refused(1)
+        load("path_b_after_refusal", 1, "path")
+        io_fault(1, True)
+        load("handle_a_after_io_fault", 0, "handle")
+        refused(2)
+        io_fault(0, False)
+        load("stringio_a_again", 0, "stringio")
+        load("path_b_again", 1, "path")
+        load("handle_a_again", 0, "handle")
+    for p in path:
+        os.remove(p)
+    run.sample("histories", {"order": order, "ids": [sp.grid_id for sp in specs], "shapes": [sp.shape for sp in specs], "dtype": str(dtype),
+                             "monitor": "whole-result judgement per call (attrs exactly {gridID[, file]}) + identical() for repeated loads"})
 
 
 LEVEL_TEXT = (
